@@ -38,7 +38,7 @@ LOG (decisions)
     fail to deserialize; fixed in /repo by 3a09e57 = proposed_fixes/C17-duplicate-initializer-last-wins.diff;
     Model.deser_inits / PUnfold.pu_inits follow the fix).
 * Tie: correspondence on every run (quick 500 cases + corpus, thorough 12000): mutation stream over generated
-  valid protos (31 field-level mutation kinds, 1-5 per case: rename to existing/empty/new names, drop, duplicate,
+  valid protos (34 field-level mutation kinds, 1-5 per case: rename to existing/empty/new names, drop, duplicate,
   shuffle/reverse/cyclic nodes, unknown enum values in elem_type/data_type/attribute type, inconsistent tensor
   fields, absurd external-data entries, invalid UTF-8 in bytes fields, cleared/map/sequence-without-elem types,
   repeated outputs, outputs named like inputs/initializers, nodes moved into subgraphs, scope shadowing,
@@ -66,6 +66,9 @@ LOG (decisions)
   observable).  Objects checked: everything reachable from the model plus consumer nodes found via uses().
 * Reading of "serializes to itself": q = to_proto(from_proto(p)); from_proto(q) must not raise and
   to_proto(from_proto(q)) == q (protobuf message equality).
+* Logging runs at its DEFAULT level during the whole check (warnings are emitted and their %-arguments rendered by a
+  sink handler, not printed), and the process runs in a scratch cwd where the external-data files named by the
+  generated protos (w.bin, sub/w.bin, and one absolute path) EXIST, so an accidental read succeeds and is seen.
 * File access: sys.addaudithook (open, os.*, mmap, shutil, pathlib, glob events) + rebinding
   os.stat/os.lstat/os.open during from_proto and during name/dtype/shape/size inspection of every tensor;
   paths of the Python installation and of the source tree are ignored (lazy imports).  A tensor accessor that
@@ -90,7 +93,11 @@ LOG (decisions)
   Independent seeded changes (tools/seed_eval.py), all detected with a concrete input: C17-m1/m2/m3, C17-r2m1 (graph
   input with ABSENT name gets None -> val_0 -> re-serialized proto redeclares val_0: fixpoint oracle), C17-r2m2
   (scoped_values as mutable default: sequence check), C17-r2m3 (ExternalTensor stats the file when the location has
-  a backslash: file-access oracle).
+  a backslash: file-access oracle), C17-r3m1 (IR<10 function value-info read-back gated on 0 < ir_version: mutation
+  ir_version_low = ir_version 0/absent + function value_info -> fixpoint oracle), C17-r3m2 (warning formats the Node,
+  whose __str__ reads a small EXTERNAL constant input: mutation dangling_with_external + logging at its default
+  level + existing external files -> file-access oracle), C17-r3m3 (function attribute defaults deserialized in the
+  function's value scope: mutation fn_attr_dup_graph -> oracle I1x).
 """
 
 from __future__ import annotations
@@ -104,6 +111,43 @@ import sys
 from harness import common
 from harness.common import REPO
 from harness.props import c03 as S
+
+# --------------------------------------------------------------------------- logging / external files
+
+EXT_ABS = None        # absolute path of an existing external-data file (set by run())
+
+
+class _FormatSink(__import__("logging").Handler):
+    """Swallows the library's log records AFTER formatting them, so that logging runs at its default level
+    (WARNING enabled: %-arguments are rendered, e.g. Node.__str__) without flooding the output."""
+
+    def emit(self, record):
+        try:
+            record.getMessage()
+        except Exception:  # noqa: BLE001
+            pass
+
+
+def default_level_logging() -> None:
+    import logging
+    import warnings
+    logging.disable(logging.NOTSET)
+    lg = logging.getLogger("onnx_ir")
+    if not any(isinstance(h, _FormatSink) for h in lg.handlers):
+        lg.addHandler(_FormatSink(level=logging.WARNING))
+    lg.setLevel(logging.WARNING)
+    lg.propagate = False
+    warnings.simplefilter("ignore")
+
+
+def make_external_files(root: str) -> str:
+    """Existing external-data files: ./w.bin and ./sub/w.bin relative to `root` (the cwd of the run)."""
+    os.makedirs(os.path.join(root, "sub"), exist_ok=True)
+    for rel in ("w.bin", os.path.join("sub", "w.bin")):
+        with open(os.path.join(root, rel), "wb") as f:
+            f.write(bytes(range(256)) * 4)
+    return os.path.join(root, "w.bin")
+
 
 # --------------------------------------------------------------------------- generator of valid protos
 
@@ -130,7 +174,8 @@ def gen_tensor(rng, name):
         t = H.make_tensor(name, TP.STRING, [n], [bytes([97 + rng.randrange(5)]) for _ in range(n)])
     else:
         t = onnx.TensorProto(name=name, data_type=TP.FLOAT, dims=[n], data_location=TP.EXTERNAL)
-        for k, v in (("location", rng.choice(["w.bin", "sub/w.bin"])), ("offset", str(rng.randrange(64))),
+        for k, v in (("location", rng.choice(["w.bin", "sub/w.bin"] + ([EXT_ABS] if EXT_ABS else []))),
+                     ("offset", str(rng.randrange(64))),
                      ("length", str(4 * n))):
             e = t.external_data.add()
             e.key, e.value = k, v
@@ -364,7 +409,7 @@ MUTATIONS = ["rename_existing", "rename_empty", "rename_new", "drop", "duplicate
              "bad_utf8", "clear_type", "map_type", "seq_no_elem", "output_repeat", "output_like_input",
              "move_node_inner", "dup_function", "fn_output_unknown", "attr_dup_name", "init_unnamed",
              "vi_for_unknown", "graph_attr_ref", "swap_scopes", "dup_init", "subgraph_output_outer",
-             "name_field_absent", "generated_names"]
+             "name_field_absent", "generated_names", "dangling_with_external", "ir_version_low", "fn_attr_dup_graph"]
 
 
 def mutate(m, rng, kind=None):
@@ -628,6 +673,49 @@ def mutate(m, rng, kind=None):
                     done += 1
             if not done:
                 return None
+        elif kind == "dangling_with_external":
+            # a node that reads a dangling name AND a small initializer stored as external data (file exists)
+            gs = [g for g in graphs if len(g.node)]
+            if not gs:
+                return None
+            g = rng.choice(gs)
+            ext = [t.name for t in g.initializer if t.data_location == TP.EXTERNAL and t.name]
+            if not ext:
+                t = onnx.TensorProto(name="wext", data_type=TP.FLOAT, dims=[2], data_location=TP.EXTERNAL)
+                for k, v in (("location", rng.choice(["w.bin", "sub/w.bin"] + ([EXT_ABS] if EXT_ABS else []))),
+                             ("offset", str(4 * rng.randrange(8))), ("length", "8")):
+                    e = t.external_data.add()
+                    e.key, e.value = k, v
+                g.initializer.append(t)
+                ext = ["wext"]
+            n = rng.choice(g.node)
+            n.input.append(rng.choice(ext))
+            n.input.append(rng.choice(["dng", "nope", "zz9"]))
+        elif kind == "ir_version_low":
+            # ir_version 0 / absent (below every gate), with a model-local function carrying value_info
+            if rng.random() < 0.5:
+                m.ir_version = 0
+            else:
+                m.ClearField("ir_version")
+            for f in m.functions:
+                names = [x for x in f.input] + [o for n in f.node for o in n.output if o]
+                if names and hasattr(f, "value_info"):
+                    f.value_info.append(gen_vinfo(rng, rng.choice(names)))
+        elif kind == "fn_attr_dup_graph":
+            # FunctionProto.attribute_proto with a repeated name whose EARLIER entry is graph-valued and reads
+            # names of the function's own values
+            if not len(m.functions):
+                return None
+            f = rng.choice(m.functions)
+            names = [x for x in f.input if x] + [o for n in f.node for o in n.output if o]
+            if not names:
+                return None
+            body = H.make_graph([H.make_node("Relu", [rng.choice(names)], ["fa_t"], name="fa_n")], "fa_body", [], [])
+            f.attribute_proto.append(H.make_attribute("fa", body))
+            if rng.random() < 0.8:
+                f.attribute_proto.append(H.make_attribute("fa", 7))
+            else:
+                f.attribute.append("fa")
         elif kind == "dup_init":
             gs = [g for g in graphs if len(g.initializer)]
             if not gs:
@@ -979,6 +1067,8 @@ def case_term(proto, res) -> tuple:
             reser = "None"      # names that are not valid str: the leaf serializer rejects them (not modelled)
     fix_ok = not any(m.startswith("fixpoint") for m in res["oracle"])
     unm = list(pc.unmodelled) + (["payload normalisation failed"] if it.norm_failed else [])
+    if any(a.type in (10, 5) or a.HasField("g") or len(a.graphs) for f in proto.functions for a in f.attribute_proto):
+        unm.append("graph-valued function attribute default")
     return f"({it.norm_table()}, {pterm}, {obs}, {reser}, {common.cbool(fix_ok)})", unm
 
 
@@ -1196,8 +1286,19 @@ def load_corpus() -> list:
 
 
 def run(ck) -> None:
-    import logging
-    logging.disable(logging.WARNING)
+    global EXT_ABS
+    default_level_logging()
+    ext_root = os.path.join(ck.scratch, "ext")
+    EXT_ABS = make_external_files(ext_root)
+    old_cwd = os.getcwd()
+    os.chdir(ext_root)          # relative external-data locations (w.bin, sub/w.bin) EXIST: a read would succeed
+    try:
+        _run(ck)
+    finally:
+        os.chdir(old_cwd)
+
+
+def _run(ck) -> None:
     ck.trust("Coq 8.16.1 kernel (coqc; vm_compute in case files)",
              "harness/props/c03.py part 1 + c17.py (generators, proto->term / IR->observation converters, oracle)",
              "leaf payloads are tokens computed by the library's own leaf (de)serializers (tensor, type/shape, "
@@ -1280,7 +1381,7 @@ def run(ck) -> None:
             continue
         reported.add(site)
         small = shrink(p, lambda c, s=site: any(failure_site([m]) == s for m in oracle_fails(c)))
-        ck.violation({"kind": "oracle", "mutations": desc, "proto_b64": proto_b64(small),
+        ck.violation({"kind": "oracle", "mutations": desc, "ext_abs": EXT_ABS, "proto_b64": proto_b64(small),
                       "proto": describe(small), "failures": oracle_fails(small)[:5], "broken": ck.broken_items[:3]})
     if ck.broken_items and not ck.violations:
         search(ck, diverging)
@@ -1404,8 +1505,14 @@ def search(ck, diverging: list) -> None:
 
 
 def replay(rp: dict) -> int:
-    import logging
-    logging.disable(logging.WARNING)
+    global EXT_ABS
+    default_level_logging()
+    ext_root = os.path.join(common.SCRATCH_ROOT, f"replay-C17-{os.getpid()}", "ext")
+    EXT_ABS = rp.get("ext_abs") or make_external_files(ext_root)
+    if not os.path.exists(EXT_ABS):
+        os.makedirs(os.path.dirname(EXT_ABS), exist_ok=True)
+        make_external_files(os.path.dirname(EXT_ABS))
+    os.chdir(os.path.dirname(EXT_ABS))
     if rp.get("kind") == "sequence":
         a, b = proto_from_b64(rp["first_b64"]), proto_from_b64(rp["second_b64"])
         msgs = run_sequence(a, b)
